@@ -46,6 +46,12 @@ Expected(e) ==
          LET p == P(e)  q == RefT(p, IvOfName[e.iv], e.up) IN Spellable(q) => (e.ok /\ e.out = AmericanSpell(q))
     [] e.op = "american_in"  ->                               \* American in, kern out (unison): the same pitch
          e.inp = AmericanSpell(P(e)) /\ e.ok /\ e.out = Spell(P(e))
+    [] e.op = "staffpos"     ->                               \* Staff.position_in_staff / GKernExporter.export / PositionInStaff algebra
+         LET st == StaffPos(e.k, P(e)) IN
+         /\ e.ok /\ e.ls = st /\ e.txt = PosText(st) /\ e.line = PosLine(st) /\ e.space = PosSpace(st) /\ e.isline = PosIsLine(st)
+         /\ e.back = st                                       \* from_line / from_space of the printed number gives the position back
+         /\ e.moved = st + e.by /\ e.above = st + 2 /\ e.below = st - 2
+         /\ e.lt = (st < e.other)
     [] e.op = "distance"     -> e.ok /\ e.val = Distance(P(e), [l |-> e.l2, a |-> e.a2, o |-> e.o2])
     [] e.op = "compare"      -> e.lt = PitchLess(P(e), [l |-> e.l2, a |-> e.a2, o |-> e.o2]) /\ e.gt = PitchLess([l |-> e.l2, a |-> e.a2, o |-> e.o2], P(e))
     [] OTHER -> FALSE
